@@ -86,6 +86,32 @@ def family(ctx):
         'meta_count 2047, no vds entry, max meta length')
     add(B.vhdx(pad_regions_before=2046, pad_regions_after=0, meta_offset=(1 << 20), tail=140000,
                item_length=70000), 'full region table')
+    # the item offset in relation to the metadata length declared in the region table: inside,
+    # at the end, just beyond, far beyond (but inside the stream); small and maximal item lengths
+    for ml in (0, 65536, 1 << 20):
+        for io in (65536 + 32, 131072, (1 << 20) - 8, (1 << 20) + 4096):
+            for il in (8, (1 << 32) - 1):
+                add(B.vhdx(meta_len_field=ml, item_offset=io, item_length=il, tail=1200000),
+                    'meta_length_field=%d item_offset=%d item_length=%d' % (ml, io, il))
+    # the (so far meaningless) flag word of the virtual-disk-size entry, with a hostile length
+    for fl in (1, 2, 4, 7, 0xffffffff):
+        for il in (8, 1 << 20, (1 << 32) - 1):
+            add(B.vhdx(vds_flags=fl, item_length=il, tail=1300000),
+                'vds_flags=%#x item_length=%d' % (fl, il))
+    # ISO: a long run of volume descriptors of one type (each looks like a header)
+    for dtype in (0, 2, 3, 255, 1):
+        for nsec in (300, 700):
+            d = bytearray(32768 + 2048 * (nsec + 2))
+            for k in range(nsec):
+                o = 32768 + 2048 * k
+                d[o] = dtype
+                d[o + 1:o + 6] = b'CD001'
+                d[o + 6] = 1
+            o = 32768 + 2048 * nsec
+            d[o:o + 7] = b'\x01CD001\x01'
+            d[o + 2048:o + 2048 + 7] = b'\xffCD001\x01'
+            add(B.Image('iso', bytes(d), bounds=[32768, 32768 + 2048, 32768 + 4096, o, o + 2048]),
+                'run of %d type-%d descriptors' % (nsec, dtype))
     # valid images of every format
     for im in F.wellformed(seed, full):
         add(im, 'valid ' + im.name)
